@@ -114,13 +114,16 @@ def run_lane(prop, scen, lane, tier, seed, wall, outdir, first_base):
                "--pin", str(w % (os.cpu_count() or 1))]
         if tier == "thorough":
             cmd += ["--batch", "2000"]
-        procs.append(subprocess.Popen(cmd, stdout=subprocess.PIPE, stderr=subprocess.STDOUT, text=True))
-    outs = []
+        # the code under test may print (the XML reader warns on stdout): never let a full pipe block a run
+        errf = open(os.path.join(outdir, "w%d.stderr" % w), "w")
+        procs.append((subprocess.Popen(cmd, stdout=subprocess.DEVNULL, stderr=errf), errf))
     broken = []
-    for w, p in enumerate(procs):
-        o, _ = p.communicate()
+    for w, (p, errf) in enumerate(procs):
+        p.wait()
+        errf.close()
         if p.returncode != 0:
-            broken.append("worker %d of %s/%s exited %d: %s" % (w, scen, lane, p.returncode, o[-500:]))
+            tail = open(os.path.join(outdir, "w%d.stderr" % w)).read()[-500:]
+            broken.append("worker %d of %s/%s exited %d: %s" % (w, scen, lane, p.returncode, tail))
     sums = []
     for w in range(NCPU):
         pth = os.path.join(outdir, "w%d.summary.json" % w)
